@@ -132,6 +132,10 @@ def make_search(mido, depth):
                 if hasattr(f.tracks[i][0], 'tempo'):
                     out.append(('set_tempo_value', i))
         out += [('obs', w) for w in OBS]
+        # an observation abandoned half-way (break out of iteration / play
+        # after k messages) and a nested one
+        out += [('partial', 'iter', 1), ('partial', 'iter', 2),
+                ('partial', 'play', 2), ('nested',)]
         return out
 
     def apply(s, op):
@@ -139,6 +143,38 @@ def make_search(mido, depth):
         k = op[0]
         if k == 'obs':
             return observe(mido, f, op[1])
+        if k == 'partial':
+            try:
+                import mido.midifiles.midifiles as mm
+                n = 0
+                if op[1] == 'iter':
+                    for _ in f:
+                        n += 1
+                        if n >= op[2]:
+                            break
+                else:
+                    clock = FakeClock()
+                    real = mm.time
+                    mm.time = TimeShim(clock, real)
+                    try:
+                        for _ in f.play(meta_messages=True, now=clock.now):
+                            n += 1
+                            if n >= op[2]:
+                                break
+                    finally:
+                        mm.time = real
+            except Exception:
+                pass
+            return None
+        if k == 'nested':
+            try:
+                for i, _ in enumerate(f):
+                    if i == 1:
+                        f.length            # measured while iterating
+                        break
+            except Exception:
+                pass
+            return None
         if k == 'add_track':
             f.add_track()
         elif k == 'add_track_named':
@@ -236,7 +272,7 @@ def run():
         f'[...], track.insert(0, set_tempo), del track[0], msg.time = 7, '
         f'msg.tempo = ..., ticks_per_beat, type 0/1/2, tracks = [...]}} and '
         f'observations {{list(f), f.length, f.merged_track, save bytes, '
-        f'play on a fake clock}}. After every step all five observations are '
+        f'play on a fake clock, an iteration or play abandoned after 1-2 messages, length measured inside an iteration}}. After every step all five observations are '
         f'compared with those of MidiFile(type, ticks_per_beat, tracks=deep '
         f'copy); exceptions compared by type')
     rep.assumptions += ['one note/tempo value per edit kind']
